@@ -1044,6 +1044,21 @@ class Assembler:
                 ed.insert(s.t[fp.k_body_open][2], block)
             elif pr.get('at') == 'end':
                 ed.insert(s.t[fp.k_body_close][1], block)
+            elif pr.get('at') == 'tail':
+                # in front of the body's tail expression (the value the function returns when it falls off the end)
+                mm_ = s.match()
+                q_ = fp.k_body_open + 1
+                last_start = q_
+                while q_ < fp.k_body_close:
+                    if s.kind(q_) == 'p' and s.s(q_) in '([{':
+                        was_brace_ = s.s(q_) == '{'
+                        q_ = mm_[q_]
+                        if was_brace_ and not s.is_p(q_ + 1, ';') and not s.is_id(q_ + 1, 'else') and not s.is_p(q_ + 1, '.') and not s.is_p(q_ + 1, '?') and q_ + 1 < fp.k_body_close:
+                            last_start = q_ + 1
+                    elif s.is_p(q_, ';') and q_ + 1 < fp.k_body_close:
+                        last_start = q_ + 1
+                    q_ += 1
+                ed.insert(s.t[last_start][1], block)
             elif 'after' in pr:
                 ka, kb = fp.find_stmt(pr['after'], pr.get('n', 0))
                 ke = fp.stmt_end(kb)
